@@ -419,39 +419,48 @@ def elem_name(out, i, j) -> str:
     return "%s_%d_%d" % (out["name"], i, j)
 
 
-def cut_binders(ir):
-    """(node id -> binder name, binder text) for the cut outputs of `ir`"""
+def cut_binders(ir, allowed=None):
+    """(node id -> binder name, binder text) for the cut outputs of `ir`.
+    Plain mode: a node shared by several cut outputs is bound to the first one.  Nested mode (`allowed` = the names of the
+    cut outputs a consumer may see, in the order of ir["cuts"]): a shared node is bound to the LAST allowed one, i.e. the cut
+    closest to the consumer."""
     cutmap, names = {}, []
-    for out in ir["outputs"]:
-        if out["name"] not in ir.get("cuts", []):
-            continue
+    nested = allowed is not None
+    order = {nm: k for k, nm in enumerate(ir.get("cuts", []))}
+    outs = [o for o in ir["outputs"] if o["name"] in ir.get("cuts", [])]
+    for out in outs:
+        r, c = out["shape"]
+        for j in range(c):
+            for i in range(r):
+                names.append("c_" + elem_name(out, i, j))
+    if nested:
+        outs = sorted([o for o in outs if o["name"] in allowed], key=lambda o: order[o["name"]])
+    for out in outs:
         r, c = out["shape"]
         for j in range(c):
             for i in range(r):
                 nm = "c_" + elem_name(out, i, j)
-                names.append(nm)
                 n = out["elems"][i][j]
-                if n is not None and ir["nodes"][n]["op"] not in ("const", "input") and n not in cutmap:
+                if n is not None and ir["nodes"][n]["op"] not in ("const", "input") and (nested or n not in cutmap):
                     cutmap[n] = nm
                     # CasADi hoists negations ((-x)*y -> -(x*y)), so consumers may use the operand of a
                     # negated cut output directly: x = -(-x) exactly, in floats and in ℝ
                     nd = ir["nodes"][n]
                     if nd["op"] == "neg":
                         a = nd["args"][0]
-                        if ir["nodes"][a]["op"] not in ("const", "input") and a not in cutmap:
+                        if ir["nodes"][a]["op"] not in ("const", "input") and (nested or a not in cutmap):
                             cutmap[a] = "(CasNum.neg %s)" % nm
     return cutmap, "(%s : α)" % " ".join(names)
 
 
 def cutmap_for(ir, out, cutmap):
-    """the cut map seen from output `out`: for a cut output (nested mode) its own elements are not cut"""
-    if out["name"] not in ir.get("cuts", []):
+    """the cut map seen from output `out`.  Plain mode: `cutmap` for every non-cut output.  Nested mode: a cut output sees
+    only the cut outputs listed BEFORE it in ir["cuts"]; other outputs see all of them (later ones take shared nodes)."""
+    if not ir.get("nested"):
         return cutmap
-    r, c = out["shape"]
-    own = set("c_" + elem_name(out, i, j) for j in range(c) for i in range(r))
-    def mine(v):
-        return v in own or (v.startswith("(CasNum.neg ") and v[len("(CasNum.neg "):-1] in own)
-    return {n: v for n, v in cutmap.items() if not mine(v)}
+    cuts = list(ir.get("cuts", []))
+    allowed = cuts[:cuts.index(out["name"])] if out["name"] in cuts else cuts
+    return cut_binders(ir, allowed)[0]
 
 
 def cut_args(ir) -> str:
@@ -660,7 +669,7 @@ def emit_wrappers(ir) -> str:
                         L.append("/-- `%s_cut` is a selection: ifz(c, a) + ifz(not c, b) (definitional) -/" % en)
                         L.append("theorem %s_cut_sel {α : Type} [CasNum α] %s %s :\n    %s_cut %s %s = CasNum.add (CasNum.ifz (%s_cut__c %s %s) (%s_cut__a %s %s)) (CasNum.ifz (CasNum.not (%s_cut__c %s %s)) (%s_cut__b %s %s)) := rfl" % (
                             en, b, cb, en, a, ca_, en, a, ca_, en, a, ca_, en, a, ca_, en, a, ca_))
-                    if not negs:
+                    if not any(v.startswith("(CasNum.neg") for v in cm.values()):
                         L.append("/-- peeling: `%s` is its cut version applied to the cut outputs (definitional) -/" % en)
                         L.append("theorem %s_cut_eq {α : Type} [CasNum α] %s :\n    %s %s = %s_cut %s %s := rfl" % (
                             en, b, en, a, en, a, cut_args(ir)))
